@@ -24,6 +24,17 @@ CHECKS = {
             "WellFormed evaluated by TLC on every state of recorded catalogue histories (failed calls, undo, redo, replica, reload included).", "Projection reads the public workbook value; spill conditions after evaluation.", "4 C27"),
     "C28": ("selection", "model_checking", "TLA+ Selection.tla (SelOK) model-checked with TLC; S->I replay of every behaviour; I->S SelOK on every logged selection state (TraceSelection.tla)",
             "Reference selection machine proved to keep SelOK within bounds; every behaviour replayed with the selection compared after each step; SelOK evaluated by TLC on recorded histories.", "Choice of the newly selected sheet left open as the property leaves it.", "4 C28"),
+    "C21": ("calendar", "model_checking", "TLA+ Calendar.tla: the day-by-day Gregorian chain with a closed form as invariant, every state (serial) printed by TLC and replayed on the date codecs, formats and functions",
+            "All 2 958 465 serials are states of the spec; each is compared with from_excel_date / date_to_serial_number (all), and with yyyy-mm-dd formatting, typed ISO dates and DATE/YEAR/MONTH/DAY/WEEKDAY (windows in quick, all in thorough).",
+            "Gregorian rules as written in Calendar.tla, certified against an independent closed form by TLC on every day.", "4 C21"),
+    "C22": ("grid", "model_checking", "TLA+ Grid.tla (bijective base-26 columns, A1/R1C1 text, sheet-name quoting) with TLC; every enumerated case replayed on the real codecs, lexer, parser and printers",
+            "Exhaustive over the 16 384 columns; references over boundary rows/columns x flags x hosts; all sheet names up to length 2 (quick) / 3 (thorough) over a tricky alphabet.",
+            "R1C1 spelling not fixed by the property; names the engine rejects are skipped and counted.", "4 C22"),
+    "C23": ("lang", "model_checking", "TLA+ Lang.tla (RoundTrip, Injective) evaluated by TLC over the complete name table recorded from the implementation",
+            "Complete: 495 functions x 5 languages + xlsx names, 12 errors x 5 languages + xlsx form, with the implementation's own inverse lookups.", "Tables are data of the implementation (hook H2).", "4 C23"),
+    "C34": ("f4", "model_checking", "TLA+ F4.tla (Cycle, Period4, OnlyDollars) with TLC; every formula x selection case replayed on cycle_reference",
+            "Every formula of the token pool with every cursor position / selection; result text must be one the spec accepts; period four with the engine's own cursor and over the whole formula.",
+            "Whitespace before a reference may or may not count as touched.", "4 C34"),
 }
 
 
@@ -61,6 +72,7 @@ def main():
         "engines": [
             {"name": "history", "path": "spec/History.tla, spec/MC_History.tla, spec/TraceHistory.tla, bin/fam_history.py, harness/src/{world,histrec,ops,gen,project}.rs", "serves_properties": ["C01", "C02", "C03", "C04", "C26"], "kind_free_text": "TLC model checking + bidirectional conformance"},
             {"name": "selection", "path": "spec/Selection.tla, spec/MC_Selection.tla, spec/TraceSelection.tla, harness/src/behreplay.rs", "serves_properties": ["C28"], "kind_free_text": "TLC model checking + bidirectional conformance"},
+            {"name": "cases", "path": "spec/{Calendar,Grid,Lang,F4}.tla, bin/fam_cases.py, harness/src/cases.rs", "serves_properties": ["C21", "C22", "C23", "C34"], "kind_free_text": "TLC case enumeration with expected results, replayed on the implementation"},
             {"name": "structure", "path": "spec/TraceWellFormed.tla", "serves_properties": ["C27"], "kind_free_text": "TLC trace validation of a state predicate"},
         ],
         "checks": checks,
